@@ -63,7 +63,9 @@ func GenST(rng *Rng, prop, variant string) *STScript {
 		sc.Roots = []string{Pick(rng, []string{"cdc", "r/x", "by-dev", "cdc-meta"})}
 	}
 	tasks := Pick(rng, [][]string{{"t1", "t11", "t1_", "tx"}, {"a%", "ab", "a"}, {"task_1", "taskx1", "task"}, {"u1", "u2", "u12"}})
-	colls := Pick(rng, [][]int64{{44, 441, 4499, 45}, {7, 70, 71}, {100, 1001, 10}})
+	// (-1 and -10 are the ids under which the service itself stores the start positions of a create request and the
+	// checkpoint of the operation channel)
+	colls := Pick(rng, [][]int64{{44, 441, 4499, 45}, {7, 70, 71}, {100, 1001, 10}, {-10, 10, 100, -1}, {-1, 1, 11}})
 	pchs := []string{"dml_0", "dml_1", "dml_10"}
 	n := rng.Range(6, 22)
 	val := int64(1000)
